@@ -219,6 +219,17 @@ fn gen_c09(rng: &mut Rng, n: usize, tier: &str) -> Vec<Req> {
         }
         out.push(Req::new(format!("c09.reads {}", s.payload()), format!("{cls}.reads")));
     }
+    // resolve-level: the selection of every checked event is computed from THAT event (two member events
+    // of one sender and target with different selections in one pass), and nothing of an earlier
+    // iteration is reused; plus the other deterministic resolve families
+    for sc in sr::same_sender_member_cells().into_iter().chain(sr::overlay_member_cells()).chain(sr::early_creator_cells()) {
+        if !sr::f4_free(&sc) {
+            continue;
+        }
+        let args = format!("{} {} {}", sc.ver, rng.below(8), sc.payload());
+        out.push(Req::new(format!("c09.iter {args}"), "iter.model"));
+        out.push(Req::new(format!("c09.iterspec {args}"), "iter.spec"));
+    }
     // resolve-level non-interference: histories with incomplete / stale / padded auth_events
     for _ in 0..(n / 40).max(24) {
         let sc = sr::gen_sloppy_auth(rng);
